@@ -180,6 +180,51 @@ def h_extends_environment_order(eng):
     eng.prove("envorder.each_base_gets_its_own_clause_modifications", z3.BoolVal(all(env[1:] == list(clause_mods[i].fields["arguments"].items) for i, env in enumerate(base_env_args))))
 
 
+def h_extends_of_elementary_types(eng):
+    """flatten_extends on a chain of type definitions  type T1 = Real(a1); type T2 = T1(a2); ... : the real function, real recursion
+    and the real find_class (built-in Real included).  A class that inherits from an elementary type -- directly or through other
+    type definitions -- IS that elementary type: every modification collected on the way, the one handed in from outside last, ends
+    up on its value symbol in that order (so that the outermost wins), and nothing stays behind in the class's own environment
+    (where nothing would ever apply it)."""
+    A = setup(eng)
+    eng.call_contracts.pop("flatten_extends", None)
+    eng.call_contracts.pop("Class.find_class", None)
+    f = eng.find_function(TREE, "flatten_extends")
+    add = eng.find_function(AST, "Class.add_class")
+    depth = 1 + eng.choice(3)
+    eng.input("chain_of_type_definitions", depth)
+    root = A.new("Tree", name="root")
+    level_args, prev = [], "Real"
+    last = None
+    for i in range(depth):
+        arg = elem_arg(A, ["max", "min", "nominal"][i], A.prim(10 + i))
+        level_args.append(arg)
+        c = A.new("Class", name="T%d" % (i + 1), type="type")
+        c.fields["extends"].items.append(A.new("ExtendsClause", component=A.ref(prev), class_modification=A.new("ClassModification", arguments=VList([arg]))))
+        eng.call(VBound(add, root), [c], {})
+        prev, last = "T%d" % (i + 1), c
+    outer_args = [elem_arg(A, "min", A.prim(7)), elem_arg(A, "start", A.prim(3))]
+    outer = A.new("ClassModification", arguments=VList(list(outer_args)))
+    try:
+        out = eng.call(f, [last, outer], {"parent": root})
+    except PyRaise as e:
+        eng.prove("alias.no_exception", False, exc=repr(e.exc))
+        return
+    eng.cover("alias.depth%d" % depth)
+    eng.prove("alias.a_type_defined_from_an_elementary_type_is_elementary_at_any_depth", z3.BoolVal(out.fields.get("type") == "__builtin"), type=repr(out.fields.get("type")))
+    vs = out.fields["symbols"].vals[out.fields["symbols"].keys.index("__value")] if "__value" in out.fields["symbols"].keys else None
+    cm = vs.fields.get("class_modification") if vs is not None else None
+    got = list(cm.fields["arguments"].items) if isinstance(cm, VObj) else []
+    want = level_args + outer_args
+    # (type definitions further in are looked up as copies: compare what the argument says, attribute path and value)
+    says = lambda a: (describe(a)[0], describe(a)[1].fields.get("value") if isinstance(describe(a)[1], VObj) else None)
+    eng.prove("alias.every_modification_reaches_the_value_symbol_innermost_first_outermost_last",
+              z3.BoolVal([says(x) for x in got] == [says(x) for x in want] and [id(x) for x in got[-2:]] == [id(x) for x in outer_args]),
+              got=[says(a) for a in got], want=[says(a) for a in want])
+    left = out.fields["modification_environment"].fields["arguments"].items
+    eng.prove("alias.no_modification_is_left_behind_in_the_class_environment", z3.BoolVal(len(left) == 0), left=[describe(a)[0] for a in left])
+
+
 # ------------------------------------------------------------------------------------------------ build_instance_tree: elementary variable
 def run_symbol_loop(eng, A, ext, contracts=None):
     eng.call_contracts["extends_builtin"] = lambda eng, args, kwargs: False
@@ -379,12 +424,13 @@ def h_local_classes_are_instantiated_from_copies(eng):
 HARNESSES = [("modify_symbol: order and scope", h_modify_symbol),
              ("modify_symbol: unknown attribute", h_modify_symbol_rejects_unknown),
              ("flatten_extends: environment order", h_extends_environment_order),
+             ("flatten_extends: type definitions over elementary types, any depth", h_extends_of_elementary_types),
              ("build_instance_tree: elementary variable, spellings", h_elementary_spellings),
              ("build_instance_tree: elementary variable, order", h_elementary_order),
              ("build_instance_tree: component, shift one level", h_component_shift),
              ("flatten_symbols: apply before rename", h_apply_before_rename),
              ("build_instance_tree: local classes instantiated from copies", h_local_classes_are_instantiated_from_copies)]
-EXPECTED_COVER = {"modify.n1", "modify.n2", "modify.n3", "modify.other_scope_same_simple_name", "modify.scope_is_a_copy_of_this_class", "modify.unknown", "envorder.0_bases", "envorder.1_bases", "envorder.2_bases",
+EXPECTED_COVER = {"modify.n1", "modify.n2", "modify.n3", "modify.other_scope_same_simple_name", "modify.scope_is_a_copy_of_this_class", "modify.unknown", "envorder.0_bases", "envorder.1_bases", "envorder.2_bases", "alias.depth1", "alias.depth2", "alias.depth3",
                   "elem.nested", "elem.dotted", "elem.binding", "elem.order", "comp.dotted", "comp.dotted_attribute", "comp.nested", "order.apply_rename", "local.classes_loop"}
 BOUNDED = True
 LEVEL = "proof"
